@@ -1,0 +1,71 @@
+//! Verification hooks (cargo feature `verif-hooks`, off by default).
+//!
+//! Seams for an external deterministic simulator: a per-thread VM instruction
+//! counter, a "fail at instruction n" fault point and a step budget (a
+//! deterministic watchdog). Nothing in here is compiled unless the feature is
+//! enabled, and nothing in here changes behaviour unless a fault is armed.
+
+use std::cell::Cell;
+
+use crate::interpreter::RuntimeErrorKind;
+
+pub const INJECTED_FAULT_MESSAGE: &str = "verif: injected fault";
+pub const BUDGET_EXCEEDED_MESSAGE: &str = "verif: step budget exceeded";
+
+thread_local! {
+    static STEPS: Cell<u64> = const { Cell::new(0) };
+    static FAIL_AT: Cell<Option<u64>> = const { Cell::new(None) };
+    static BUDGET: Cell<Option<u64>> = const { Cell::new(None) };
+    static FIRED: Cell<u64> = const { Cell::new(0) };
+}
+
+/// Reset the instruction counter and disarm any fault (the budget is kept).
+pub fn reset() {
+    STEPS.with(|s| s.set(0));
+    FAIL_AT.with(|f| f.set(None));
+}
+
+/// Number of VM instructions dispatched on this thread since the last `reset`.
+pub fn steps() -> u64 {
+    STEPS.with(|s| s.get())
+}
+
+/// Raise a run-time error when the `n`-th instruction (1-based, counted from the
+/// last `reset`) is about to be dispatched. One-shot.
+pub fn arm(n: u64) {
+    FAIL_AT.with(|f| f.set(Some(n)));
+}
+
+pub fn disarm() {
+    FAIL_AT.with(|f| f.set(None));
+}
+
+/// Raise a run-time error once more than `n` instructions have been dispatched
+/// since the last `reset`. `None` disables the budget.
+pub fn set_budget(n: Option<u64>) {
+    BUDGET.with(|b| b.set(n));
+}
+
+/// How many injected faults have actually fired on this thread.
+pub fn fired() -> u64 {
+    FIRED.with(|f| f.get())
+}
+
+pub(crate) fn on_step() -> Option<RuntimeErrorKind> {
+    let n = STEPS.with(|s| {
+        let n = s.get() + 1;
+        s.set(n);
+        n
+    });
+    if FAIL_AT.with(|f| f.get()) == Some(n) {
+        FAIL_AT.with(|f| f.set(None));
+        FIRED.with(|f| f.set(f.get() + 1));
+        return Some(RuntimeErrorKind::UserError(INJECTED_FAULT_MESSAGE.into()));
+    }
+    if let Some(budget) = BUDGET.with(|b| b.get())
+        && n > budget
+    {
+        return Some(RuntimeErrorKind::UserError(BUDGET_EXCEEDED_MESSAGE.into()));
+    }
+    None
+}
